@@ -48,6 +48,8 @@ def run(ctx):
     ctx.rule("R12.k", "constructor model: Parameters._setup_params (with _instantiate_param) interpreted abstractly on 288 combinations of keywords x reference modes (plain value / reference with a value / reference without a value yet / asynchronous reference) x an unknown keyword: own copy of every instantiate=True default and pinned constants before any keyword is applied (and still there when a keyword assigns nothing), exactly the specified assignments, every reference and only references recorded", floor=1)
     ctx.rule("R12.u2", "update model (shared with R05.m): the transient Event mode that Parameters._update switches for the keys it assigns is switched on the instance's OWN Parameter objects "
                        "(`self_[name]`), never on the class-level ones shared with the other instances", floor=1)
+    ctx.rule("R12.e", "an instance that never set a parameter follows the class default in EVERY reader (shared with R13.g): get_value_generator / inspect_value fall back to the class-level "
+                      "Parameter's default, not to the default frozen on a per-instance copy", floor=1)
     ctx.rule("R12.j", "a constructor keyword does not change the class: the one validator that extends the Parameter it runs on (Selector._ensure_value_is_in_objects) must not run on the "
                       "class-level Parameter -- composed from three facts of the source (the in-place append; per-instance copies only for initialised instances; keywords applied before the "
                       "instance is marked initialised)", floor=1)
@@ -297,6 +299,8 @@ def run(ctx):
     update_model.report(ctx, "C12", "R12.u2")
     private_random_state_before_seeding(ctx, "R12.h")
     constructor_value_extends_the_class(ctx, "R12.j")
+    from checks.c13 import value_reporters_agree
+    value_reporters_agree(ctx, "R12.e")
     from checks import namespace_model
     namespace_model.report(ctx, "R12.q")
 
